@@ -113,6 +113,15 @@ def _times(rng, n):
 
 
 def gen(rng, kind, tier):
+    case = _gen(rng, kind, tier)
+    if case is not None and rng.random() < 0.3:
+        # additional information stored alongside (documented argument of to_file)
+        case["info"] = [{"note": "run 7"}, {"time_000000": 1, "track_000000": [1, 2]}, {"emulsion": {"a": None}},
+                        {"droplet_track": "x", "droplet_class": "None"}][int(rng.integers(4))]
+    return case
+
+
+def _gen(rng, kind, tier):
     typ = str(rng.choice(TYPES))
     hostile = kind == "hostile"
 
@@ -263,7 +272,12 @@ def run(case, rec):
         return
     obj = built.result
     before = snap(obj)
-    w = common.monitored(rec, "to_file", obj.to_file, path)
+    info = case.get("info")
+    if info is not None and case["type"] != "Emulsion":
+        w = common.monitored(rec, "to_file", obj.to_file, path, info=dict(info))
+        rec.count("written_with_info")
+    else:
+        w = common.monitored(rec, "to_file", obj.to_file, path)
     n_drop = sum(len(ms) for ms in _all_members(case))
     widths_unset = any(d.get("width") is None and d["cls"] != "SphericalDroplet" for ms in _all_members(case) for d in ms)
     empties = [len(ms) for ms in _all_members(case)]
